@@ -94,11 +94,30 @@ MaskConst(ty, n, oplen, form) ==
   ELSE IF ty.sc THEN CSimple(IF n % 2 = 0 THEN "zero" ELSE "undef", ty)
   ELSE [c |-> "vec", ty |-> ty, es |-> [i \in 1..ty.n |-> CInt(I32, (n + i) % (2 * oplen))]]
 
+\* an index constant of scalar or vector type
+IndexConst(ty, v) == IF ty.k = "vec" THEN [c |-> "vec", ty |-> ty, es |-> [i \in 1..ty.n |-> CInt(ty.e, v)]] ELSE CInt(ty, v)
+\* a constant expression of type ty that LLVM cannot fold away
+ExprOf(ty) ==
+  CASE ty = TyPtr(I32) -> CExpr("getelementptr", "i32", <<>>, NoAttrs, I32, ty, <<GI32, CInt(I64, 1)>>)
+    [] ty.k = "vec" /\ ty.e.k = "int" -> CExpr("add", "vec", <<>>, NoAttrs, TyVoid, ty, <<Opaque(ty), ConstOf(ty, 1)>>)
+    [] ty.k = "vec" /\ ty.e.k = "fp" -> CExpr("fneg", "fvec", <<>>, NoAttrs, TyVoid, ty, <<Opaque(ty)>>)
+    [] OTHER -> Opaque(ty)
+\* the constant of value class vc (Schema.tla, VClasses) and type ty
+ClassConst(ty, vc, n) ==
+  CASE vc = "lit0" -> IndexConst(ty, 0)
+    [] vc = "lit1" -> IndexConst(ty, 1)
+    [] vc = "lit" -> ConstOf(ty, n)
+    [] vc \in {"null", "undef", "poison", "zero"} -> CSimple(vc, ty)
+    [] vc = "global" -> CGRef("gv", ty)
+    [] vc = "expr" -> ExprOf(ty)
+    [] vc = "blockaddr" -> [c |-> "blockaddress", f |-> "f", b |-> 2]
+
 \* constant for operand k of case c (op: the operand record)
 SlotConst(c, op, k) ==
-  CASE op.slot = "Mask" -> MaskConst(op.ty, k, IF Has(c, "T") /\ Has(c.T, "n") THEN c.T.n ELSE op.ty.n,
+  CASE op.vc # "" -> ClassConst(op.ty, op.vc, k)
+    [] op.slot = "Mask" -> MaskConst(op.ty, k, IF Has(c, "T") /\ Has(c.T, "n") THEN c.T.n ELSE op.ty.n,
                                      IF Has(c, "attrs") /\ Has(c.attrs, "maskform") THEN c.attrs.maskform ELSE "")
-    [] op.slot = "Indices" -> CInt(op.ty, IF op.cv >= 0 THEN op.cv ELSE 0)
+    [] op.slot = "Indices" -> IndexConst(op.ty, IF op.cv >= 0 THEN op.cv ELSE 0)
     [] op.slot = "Index" -> CInt(op.ty, 1)
     [] OTHER -> ConstOf(op.ty, op.i)
 
@@ -167,8 +186,11 @@ NoFn == Fn("", TyVoid, <<>>, FALSE, <<>>)
 CountTo(ops, k, src) == Cardinality({j \in 1..k : ops[j].src = src})
 AnyOps(ops) == SelectSeq(ops, LAMBDA o : o.src = "any")
 
+RECURSIVE VcId(_, _)
+VcId(ops, k) == IF k > Len(ops) THEN "" ELSE (IF ops[k].vc # "" THEN "/" \o ops[k].slot \o ToString(ops[k].i) \o "=" \o ops[k].vc ELSE "") \o VcId(ops, k + 1)
 CaseId(c) == c.cat \o ":" \o c.kind \o "/" \o c.fam \o "/" \o c.cls \o "/" \o ToString(c.cfg.cnt) \o ToString(c.cfg.bund) \o ToString(c.idx)
              \o "/" \o ToString(c.flags) \o "/" \o ToString(c.attrs) \o (IF c.named THEN "/n" ELSE "/u") \o (IF c.wrap THEN "/w" ELSE "")
+             \o VcId(c.ops, 1)
 
 \* callbr: the callee is inline asm and every indirect destination must be passed as a blockaddress argument
 CallbrOK(c) == c.kind # "callbr" \/ c.cfg.cnt[2] = c.cfg.cnt[5]
@@ -192,6 +214,10 @@ PtrSrcFix(c) ==
 AllocaAS1(cls, name) ==
   MkInst(MkCase(KindOf("alloca"), "scaffold", cls, [cnt |-> <<0>>, bund |-> <<>>], <<>>, [addrspace |-> "1"], TRUE, FALSE), name, <<>>)
 
+\* the global an operand of value class "global" refers to
+GvDecl(ops) == IF \E k \in 1..Len(ops) : ops[k].vc = "global"
+               THEN <<DeclGlobal("gv", ops[CHOOSE k \in 1..Len(ops) : ops[k].vc = "global"].ty.e)>> ELSE <<>>
+
 Scaffold(c0) ==
   LET c == IF c0.kind = "callbr" THEN CallbrFix(c0) ELSE PtrSrcFix(c0)
       e == EntryOf(c)
@@ -213,6 +239,8 @@ Scaffold(c0) ==
                       [] op.src = "catchswitch" -> RTerm(3)
                       [] op.src = "catchpad" -> RInst(4, 1)
                       [] op.src = "cleanuppad" -> RInst(3, 1)
+      nblk == CountTo(ops, Len(ops), "block")
+      nb0 == CASE e.ctx = "invoke" -> 3 [] e.ctx = "callbr" -> 1 + nblk [] OTHER -> 1      \* blocks of the context
       val(k) == LET op == ops[k] IN
                 CASE op.src = "any" -> RParam(CountTo(ops, k, "any"))
                   [] op.src = "const" -> IF c.kind = "callbr" /\ op.role = "arg"
@@ -224,9 +252,11 @@ Scaffold(c0) ==
                   [] op.src = "func" -> IF c.kind = "callbr" THEN RAsm(op.ty, AsmCons(c)) ELSE RFunc("callee")
                   [] op.src = "alloca" -> RInst(1, 1)
                   [] op.src = "global" -> RConst(CGRef("gas", op.ty))
+                  \* a block passed as a value: an extra block after those the context needs
+                  [] op.src = "blockval" -> RBlock(nb0 + CountTo(ops, k, "blockval"))
                   [] OTHER -> padRef(op)
+      xblocks == [j \in 1..CountTo(ops, Len(ops), "blockval") |-> Blk(nm("x" \o ToString(j)), <<>>, RetVoid)]
       I == MkInst(c, rname, [k \in 1..Len(ops) |-> val(k)])
-      nblk == CountTo(ops, Len(ops), "block")
       targets == [j \in 1..nblk |-> Blk(nm("t" \o ToString(j)), <<>>, RetVoid)]
       \* the instruction under test followed by a use of its result, in block b
       pre == IF \E k \in 1..Len(ops) : ops[k].src = "alloca" THEN <<AllocaAS1(c.cls, nm("al"))>> ELSE <<>>
@@ -234,7 +264,7 @@ Scaffold(c0) ==
       body == IF e.cat = "term" THEN <<>> ELSE withUse(1)
       term == IF e.cat = "term" THEN I ELSE RetVoid
       nh == IF e.ctx = "catchswitch" THEN c.cfg.cnt[2] ELSE 0
-      blocks ==
+      blocks0 ==
         CASE e.ctx \in {"plain", "ret", "resume"} -> <<Blk(nm("entry"), body, term)>>
           [] e.ctx \in {"labels", "indirectbr", "callbr"} -> <<Blk(nm("entry"), <<>>, I)>> \o targets
           [] e.ctx = "phi" ->
@@ -260,12 +290,14 @@ Scaffold(c0) ==
           [] e.ctx = "cleanupret" ->
                <<Blk(nm("entry"), <<>>, InvokeH(2, 3)), Blk(nm("t1"), <<>>, RetVoid), Blk(nm("cl"), <<CleanupPad0(nm("cp"))>>, I)>>
                \o (IF c.cfg.cnt[2] = 1 THEN <<Blk(nm("uw"), <<CleanupPad0(nm("cq"))>>, CleanupRetCaller(RInst(4, 1)))>> ELSE <<>>)
+      blocks == blocks0 \o xblocks
       ret == IF e.ctx = "ret" /\ c.cfg.cnt[1] = 1 THEN c.T ELSE TyVoid
       pers == e.ctx \in {"invoke", "landingpad", "resume", "catchswitch", "catchpad", "catchret", "cleanuppad", "cleanupret"}
       decls == BaseDecls \o (IF \E k \in 1..Len(ops) : ops[k].src = "func" /\ c.kind # "callbr"
                              THEN <<DeclFunc("callee", calleeTy)>> ELSE <<>>)
                          \o (IF \E k \in 1..Len(ops) : ops[k].src = "global"
                              THEN <<[DeclGlobal("gas", ops[CHOOSE k \in 1..Len(ops) : ops[k].src = "global"].ty.e) EXCEPT !.as = 1]>> ELSE <<>>)
+                         \o GvDecl(ops)
   IN Prog(CaseId(c), "cover", decls, Fn("f", ret, params, pers, blocks))
 
 \* constant expression case: @r = global <result type> <expr>, first operand unfoldable
@@ -273,7 +305,8 @@ CExprProg(c) ==
   LET e == EntryOf(c)
       inAS1 == Has(c.attrs, "ptras")          \* getelementptr from a global in address space 1
       vals == [k \in 1..Len(c.ops) |->
-                 IF k = 1 /\ inAS1 THEN CGRef("gas", c.ops[k].ty)
+                 IF c.ops[k].vc # "" THEN SlotConst(c, c.ops[k], k)
+                 ELSE IF k = 1 /\ inAS1 THEN CGRef("gas", c.ops[k].ty)
                  ELSE IF k = 1 /\ c.ops[k].slot # "Cond" THEN Opaque(c.ops[k].ty)
                  ELSE IF c.ops[k].slot = "Cond" THEN
                         (IF c.ops[k].ty = I1 THEN CExpr("icmp", "i32", <<>>, [pred |-> "eq"], TyVoid, I1, <<Opaque(I32), CInt(I32, 7)>>)
@@ -282,16 +315,28 @@ CExprProg(c) ==
                  ELSE SlotConst(c, c.ops[k], k)]
       x == CExpr(c.kind, c.cls, c.flags, c.attrs, c.ty, c.res, vals)
   IN Prog(CaseId(c), "cexpr",
-          BaseDecls \o (IF inAS1 THEN <<[DeclGlobal("gas", c.ops[1].ty.e) EXCEPT !.as = 1]>> ELSE <<>>) \o <<DefGlobal("r", c.res, x)>>, NoFn)
+          BaseDecls \o (IF inAS1 THEN <<[DeclGlobal("gas", c.ops[1].ty.e) EXCEPT !.as = 1]>> ELSE <<>>) \o GvDecl(c.ops) \o <<DefGlobal("r", c.res, x)>>, NoFn)
 
 \* every constant form as a global initialiser; each entry: <<tag, constant>>
 \* (floating-point values are exactly representable in their type: rounding of literals is C10's subject;
 \*  LLVM does not allow scalable vectors in globals)
+I128 == TyInt(128)
+Z(n) == [i \in 1..n |-> 0]
+FF(n) == [i \in 1..n |-> 255]
 ConstForms == <<
   <<"i1-true", CInt(I1, 1)>>, <<"i1-false", CInt(I1, 0)>>, <<"i8-neg", CInt(I8, -1)>>, <<"i8-max", CInt(I8, 127)>>,
   <<"i32-min1", CInt(I32, -2147483647)>>, <<"i32-zero", CInt(I32, 0)>>, <<"i64-pos", CInt(I64, 2147483647)>>,
   <<"i64-max", CBytes(I64, <<255, 255, 255, 255, 255, 255, 255, 127>>)>>, <<"i64-min", CBytes(I64, <<0, 0, 0, 0, 0, 0, 0, 128>>)>>,
   <<"i32-min", CBytes(I32, <<0, 0, 0, 128>>)>>, <<"i16", CBytes(I16, <<52, 18>>)>>,
+  \* wide integers around 2^64 (values a 64-bit machine word cannot hold), little-endian bytes
+  <<"i128-2p64", CBytes(I128, Z(8) \o <<1>> \o Z(7))>>, <<"i128-5x2p64", CBytes(I128, Z(8) \o <<5>> \o Z(7))>>,
+  <<"i128-2p64-1", CBytes(I128, FF(8) \o Z(8))>>, <<"i128-2p64+1", CBytes(I128, <<1>> \o Z(7) \o <<1>> \o Z(7))>>,
+  <<"i128-2p100", CBytes(I128, Z(12) \o <<16>> \o Z(3))>>, <<"i128-max", CBytes(I128, FF(15) \o <<127>>)>>,
+  <<"i128-min", CBytes(I128, Z(15) \o <<128>>)>>, <<"i128-pattern", CBytes(I128, Z(4) \o FF(4) \o Z(4) \o FF(3) \o <<127>>)>>,
+  <<"i128-neg2p64", CBytes(I128, Z(8) \o FF(8))>>, <<"i128-neg2p64-1", CBytes(I128, FF(8) \o <<254>> \o FF(7))>>,
+  <<"i128-2p63", CBytes(I128, Z(7) \o <<128>> \o Z(8))>>,
+  <<"i65-min", CBytes(TyInt(65), Z(8) \o <<1>>)>>, <<"i65-2p63", CBytes(TyInt(65), Z(7) \o <<128, 0>>)>>,
+  <<"i65-max", CBytes(TyInt(65), FF(8) \o <<0>>)>>, <<"i96-2p64", CBytes(TyInt(96), Z(8) \o <<1>> \o Z(3))>>,
   <<"float-one", [c |-> "fp", ty |-> F32, v |-> "1.0"]>>, <<"double-neg", [c |-> "fp", ty |-> F64, v |-> "-0.5"]>>,
   <<"double-big", [c |-> "fp", ty |-> F64, v |-> "1e300"]>>, <<"float-frac", [c |-> "fp", ty |-> F32, v |-> "0.15625"]>>,
   <<"double-inexact-decimal", [c |-> "fp", ty |-> F64, v |-> "0.1"]>>, <<"double-zero", [c |-> "fp", ty |-> F64, v |-> "0.0"]>>,
@@ -348,6 +393,12 @@ ModuleProgs == <<
                       [name |-> "e", ty |-> I64], [name |-> "g", ty |-> TyInt(128)], [name |-> "h", ty |-> F32], [name |-> "i", ty |-> F64],
                       [name |-> "j", ty |-> I8Ptr], [name |-> "k", ty |-> TyFP("half")]>>, FALSE,
           <<Blk("", <<>>, RetVal(I64, RParam(5)))>>)),
+  \* wide constants as instruction operands
+  Prog("mod:wide-operands", "module", BaseDecls,
+       Fn("f", I128, <<[name |-> "x", ty |-> I128]>>, FALSE,
+          <<Blk("", <<Simple("add", "i128", <<1, 1>>, <<>>, "a", <<RParam(1), RConst(CBytes(I128, Z(8) \o <<5>> \o Z(7)))>>),
+                      Simple("xor", "i128", <<1, 1>>, <<>>, "b", <<RInst(1, 1), RConst(CBytes(I128, Z(12) \o <<16>> \o Z(3)))>>),
+                      Simple("lshr", "i128", <<1, 1>>, <<>>, "c", <<RInst(1, 2), RConst(CInt(I128, 64))>>)>>, RetVal(I128, RInst(1, 3)))>>)),
   Prog("mod:unnamed-globals", "module", <<DefGlobal("", I32, CInt(I32, 1)), DefGlobal("", I8, CInt(I8, 2)), DefGlobal("x", TyPtr(I32), CGRef("0", TyPtr(I32)))>>, NoFn),
   Prog("mod:blockaddress", "module", BaseDecls \o <<DefGlobal("ba", I8Ptr, [c |-> "blockaddress", f |-> "f", b |-> 2])>>,
        Fn("f", TyVoid, <<>>, FALSE, <<Blk("entry", <<>>, Br(2)), Blk("t", <<>>, RetVoid)>>)),
@@ -396,7 +447,9 @@ UnnamedProg(o) ==
 
 CoverKinds == Kinds \o CExprs
 \* the config family is exercised by C15; C03 replays it as well (every repetition count prints validly)
-CoverCases(e) == {c \in Cases(e) : c.fam \notin {"wrap", "alias"} /\ CallbrOK(c) /\ ~(c.kind = "callbr" /\ c.cfg.bund # <<>> /\ Len(c.cfg.bund) > 1)}
+\* (the arguments of a callbr are the blockaddresses of its destinations: no value classes there)
+CoverCases(e) == {c \in Cases(e) : c.fam \notin {"wrap", "alias"} /\ CallbrOK(c) /\ ~(c.kind = "callbr" /\ c.cfg.bund # <<>> /\ Len(c.cfg.bund) > 1)
+                                   /\ ~(c.kind = "callbr" /\ \E j \in 1..Len(c.ops) : c.ops[j].role = "arg" /\ c.ops[j].vc # "")}
 CoverProg(c) == IF c.cat = "cexpr" THEN CExprProg(c) ELSE Scaffold(c)
 
 ----------------------------------------------------------------------------
@@ -611,7 +664,7 @@ MixSources(cc, op, pos) ==
 RECURSIVE MixVals(_, _, _)
 MixVals(cc, ops, pos) == IF pos > Len(ops) THEN {<<>>}
                          ELSE {<<v>> \o rest : v \in MixSources(cc, ops[pos], pos), rest \in MixVals(cc, ops, pos + 1)}
-MixCases(e) == {c \in Cases(e) : c.fam \in {"class", "variant", "flags", "path", "as"} /\ c.cfg.bund = <<>>}
+MixCases(e) == {c \in Cases(e) : c.fam \in {"class", "variant", "flags", "path", "as", "args"} /\ c.cfg.bund = <<>>}
 MixSteps ==
   LET n == Len(env) + 1
       ki == RandomElement(MixKinds)
